@@ -128,6 +128,10 @@ def full_alphabet(st=None, hist=None, *, with_alias=True):
         ["mutate", [["w2", ["add", Cn("m"), lit(1)]]]],  # reads a window column
         # two window functions that take their order from the table (no arrange=)
         ["mutate", [["l1", ["shift", col(T, "x"), 1, None]], ["l2", ["row_number"]]]],
+        # partitioned window functions ordered by a descending key with an explicit null position
+        ["mutate", [["pr", ["rank", {"partition_by": [col(T, "g")], "arrange": [["desc", ["nulls_first", col(T, "x")]]]}]],
+                    ["ps", ["shift", col(T, "x"), 1, None, {"partition_by": [col(T, "g")], "arrange": [["desc", ["nulls_first", col(T, "x")]], kT]}]]]],
+        ["join", {"src": "R"}, "left", [["and", ["eq", kT, col("R", "k")], ["gt", col(T, "x"), lit(2)]]]],  # equality + inequality
         ["select", [Cn("g"), Cn("x")]],  # hides k (e.g. the column the table is ordered by)
         ["select", [Cn("s"), Cn("b"), Cn("f"), Cn("x"), Cn("g"), Cn("k")]],  # a pure permutation of all columns
     ]
